@@ -218,9 +218,9 @@ func (u *Universe) zero(sort string) string {
 	case "Str":
 		return u.lit("")
 	case "Slice":
-		return "nilslice"
+		return "(mkslice 0 0 0)"
 	case "Val":
-		return "nilval"
+		return "(mkval 0 0)"
 	}
 	for _, si := range u.structs {
 		if si.name == sort {
